@@ -549,7 +549,11 @@ type hitC struct {
 	Fragments search.FieldFragmentMap     `json:"fragments"`
 }
 
-func canon(res *bleve.SearchResult, noScores bool) string {
+// canon renders an answer canonically.  With noScores it renders what is left of the answer once
+// scores are set aside: score values are blanked, and when the request sorts by _score (scoreKeys
+// marks those sort positions) the _score sort values are blanked too and the hits are listed by id,
+// because their order is then a function of the scores.
+func canon(res *bleve.SearchResult, noScores bool, scoreKeys []bool) string {
 	type facetC struct {
 		Name string      `json:"name"`
 		Val  interface{} `json:"val"`
@@ -567,8 +571,22 @@ func canon(res *bleve.SearchResult, noScores bool) string {
 		hc := hitC{ID: h.ID, Score: math.Float64bits(h.Score), Sort: h.Sort, Fields: h.Fields, Locations: h.Locations, Fragments: h.Fragments}
 		if noScores {
 			hc.Score = 0
+			for i := range scoreKeys {
+				if scoreKeys[i] && i < len(hc.Sort) {
+					hc.Sort = append([]string{}, hc.Sort...)
+					hc.Sort[i] = ""
+				}
+			}
 		}
 		out.Hits = append(out.Hits, hc)
+	}
+	if noScores {
+		for _, k := range scoreKeys {
+			if k {
+				sort.SliceStable(out.Hits, func(i, j int) bool { return out.Hits[i].ID < out.Hits[j].ID })
+				break
+			}
+		}
 	}
 	var names []string
 	for n := range res.Facets {
@@ -776,8 +794,13 @@ func exec(in In) vh.Result {
 				qj, _ := json.Marshal(rq)
 				return v, &vh.Direct{Kind: "answer-malformed", Detail: fmt.Sprintf("request %s on layout [%s]: %s: %s", rs.name, name, w, qj)}, nil
 			}
-			v.ans = append(v.ans, canon(res, false))
-			v.ansNS = append(v.ansNS, canon(res, true))
+			var scoreKeys []bool
+			for _, so := range rq.Sort {
+				_, isScore := so.(*search.SortScore)
+				scoreKeys = append(scoreKeys, isScore)
+			}
+			v.ans = append(v.ans, canon(res, false, nil))
+			v.ansNS = append(v.ansNS, canon(res, true, scoreKeys))
 		}
 		for _, f := range dictFieldsAll {
 			var s string
@@ -951,7 +974,7 @@ func exec(in In) vh.Result {
 				if dictDiffers {
 					if known == nil {
 						known = &vh.Direct{Kind: "layout-score-differs", Detail: fmt.Sprintf(
-							"request %s (dictionary-expanded multi-term leaf): scores differ between layout [%s] and layout [%s], whose dictionaries of %v hold different term sets (terms of deleted documents); ids, order, fields, locations, fragments, facets identical", rs.name, views[ref].name, views[vi].name, rs.dict)}
+							"request %s (dictionary-expanded multi-term leaf): scores differ between layout [%s] and layout [%s], whose dictionaries of %v hold different term sets (terms of deleted documents); ids, fields, locations, fragments, facets identical, order identical apart from what a sort by _score derives from the scores", rs.name, views[ref].name, views[vi].name, rs.dict)}
 					}
 					continue
 				}
